@@ -76,6 +76,8 @@ type Exec struct {
 	count  map[string]int
 	allocs *[]Term
 	known  []Term // refs known to exist before any allocation of this function
+	recent []Term // reference values obtained since the last allocation
+	recentSeen map[Term]bool
 	rets   []retInfo
 	defers []*ssa.Defer
 	depth  int
@@ -960,6 +962,14 @@ func (ex *Exec) havocLoopMemory(li *loopInfo) {
 				markType(et)
 			case *ssa.MapUpdate:
 				mt := in.Map.Type().Underlying().(*types.Map)
+				if !inLoop(in.Map) {
+					// a map held in a loop-invariant value: only its own entry changes
+					if mv, ok := ex.vals[in.Map]; ok && mv.K == KRef && mv.T != "" && mv.EP == nil {
+						ex.touchMap(mt)
+						ex.pendingMapHavoc = append(ex.pendingMapHavoc, mapHavoc{mt, mv.T})
+						continue
+					}
+				}
 				for k := range memSorts {
 					if strings.HasPrefix(k, "Mmap "+typeKey(mt)+" ") {
 						wholeKeys[k] = true
@@ -1181,7 +1191,26 @@ func (ex *Exec) loopCallRegions(cc *ssa.CallCommon, inLoop func(ssa.Value) bool)
 			if env == nil {
 				env = ex.loopCallEnv(fc, fn, cc, inLoop)
 			}
-			cells = append(cells, ex.lvalueCells(env, m, fc.Full())...)
+			cs, cok := func() (cs []cell, cok bool) {
+				defer func() {
+					if r := recover(); r != nil {
+						cs, cok = nil, false
+					}
+				}()
+				return ex.lvalueCells(env, m, fc.Full()), true
+			}()
+			if cok {
+				cells = append(cells, cs...)
+				break
+			}
+			fr, fok := ex.staticFieldRegion(fc, fn, cc, m)
+			if !fok {
+				return nil, nil, nil, false
+			}
+			has = true
+			for k, ids := range fr {
+				regs[k] = append(regs[k], ids...)
+			}
 		}
 	}
 	return regs, rest, cells, has
